@@ -10,7 +10,7 @@ import (
 )
 
 func init() {
-	probeNames["C08"] = []string{"fault_in_commit", "fault_in_data_write", "fault_in_header_write", "fault_in_first_sync", "fault_in_final_sync", "fault_outside_commit", "fault_during_open", "commit_failed", "commit_ok", "liveness_checked", "liveness_second_attempt", "durability_checked", "final_state_is_later_attempt", "short_write", "burst_spans_transactions", "reopen_with_maxsize_update", "shrink_release_under_fault", "stale_flush_write_failed_late"}
+	probeNames["C08"] = []string{"fault_in_commit", "fault_in_data_write", "fault_in_header_write", "fault_in_first_sync", "fault_in_final_sync", "fault_outside_commit", "fault_during_open", "commit_failed", "commit_ok", "liveness_checked", "liveness_second_attempt", "durability_checked", "final_state_is_later_attempt", "short_write", "burst_spans_transactions", "reopen_with_maxsize_update", "shrink_release_under_fault", "grow_prealloc_under_fault", "stale_flush_write_failed_late"}
 	register(&PropDef{
 		ID: "C08", Level: "fault_enumeration", QuickSec: 55, ThoroSec: 1200,
 		Rule: "each run = one seeded txops history (<=10 transactions, incl. reopen) with a fault plan aimed at the I/O calls a fault-free dry run of the same seed performs: kind in {write error before effect, short write then error, sync error, truncate error, size error, mmap error, read error at open} x call index x burst in {1,2,3,until end of transaction}; a fault-free configuration of every seed runs first with the strict oracle. Oracles: no panic, no hang (scheduler deadlock detection), after every transaction a fresh read transaction sees exactly the last successfully committed model state, a commit that reported success is durable (durable-only image reopens to it), a commit during which one of its writes/syncs failed does not report success, once faults stopped a write transaction commits within 2 attempts, and after clean close+reopen the state is the last committed one or the complete state of a later attempt whose header write was issued. Non-trivial = at least one fault actually fired inside a transaction or an open; distinct = op list + fault plan + config + schedule hash.",
@@ -105,6 +105,13 @@ func c08Body(e *Env) {
 		c.Tasks = map[string][]Op{"main": ops}
 		c.Faults = []simdisk.Fault{} // armed at the reopen, see below
 	}
+	if c.Tasks == nil && c.Cfg.Variant == 2 && c.Cfg.MaxSize > 0 && rng.Intn(3) == 0 {
+		// targeted scenario: an open that raises the limit with Prealloc (header
+		// transaction, truncate, remap) is hit by an I/O fault of any kind
+		c.Cfg.Variant = 8
+		c.Cfg.NTx = 2 + rng.Intn(4)
+		c.Faults = []simdisk.Fault{} // armed at the reopen, see below
+	}
 	cfg := *c.Cfg
 	var explicit []Op
 	if c.Tasks != nil {
@@ -116,7 +123,7 @@ func c08Body(e *Env) {
 
 	// 1. fault-free dry run with the strict oracle
 	var calls [8]int
-	if c.Faults == nil && !c.Explicit && c.Cfg.Variant != 7 {
+	if c.Faults == nil && !c.Explicit && c.Cfg.Variant != 7 && c.Cfg.Variant != 8 {
 		d0 := e.NewDisk("dry")
 		r0 := NewRunner(e, d0, cfg)
 		if err := r0.Open(); err != nil {
@@ -338,6 +345,20 @@ func c08Body(e *Env) {
 				c.Faults = []simdisk.Fault{{Kind: k, Nth: reopenRng.Intn(6), Burst: 1}}
 			}
 			d.SetFaults(c.Faults)
+		} else if cfg.Variant == 8 && !shrunk && r.Cfg.MaxSize > 0 {
+			shrunk = true
+			newMax = r.Cfg.MaxSize + (1+reopenRng.Intn(8))*8<<10
+			opts.Flags |= txfile.FlagUpdMaxSize
+			opts.MaxSize = uint64(newMax)
+			opts.InitMetaArea = 0
+			opts.Prealloc = true
+			what += fmt.Sprintf(" with FlagUpdMaxSize (max size %d -> %d), Prealloc and a fault aimed at the open-time steps", r.Cfg.MaxSize, newMax)
+			e.Probe("grow_prealloc_under_fault")
+			if len(c.Faults) == 0 {
+				k := []simdisk.FaultKind{simdisk.FMMapErr, simdisk.FMMapErr, simdisk.FTruncErr, simdisk.FSizeErr, simdisk.FWriteErr, simdisk.FSyncErr, simdisk.FMUnmapErr}[reopenRng.Intn(7)]
+				c.Faults = []simdisk.Fault{{Kind: k, Nth: reopenRng.Intn(4), Burst: 1}}
+			}
+			d.SetFaults(c.Faults)
 		} else if r.Cfg.MaxSize > 0 && reopenRng.Intn(5) == 0 {
 			newMax = r.Cfg.MaxSize + 64<<10
 			if reopenRng.Intn(2) == 0 && r.Cfg.MaxSize >= 128<<10 {
@@ -423,10 +444,13 @@ func c08Body(e *Env) {
 		}
 	}
 	r.ReopenFn = func() { reopen(false) }
-	if cfg.Variant != 7 { // variant 7 arms its fault at the shrinking reopen
+	if cfg.Variant != 7 && cfg.Variant != 8 { // variants 7 and 8 arm their fault at the size-changing reopen
 		d.SetFaults(c.Faults)
 	}
 	g := NewGen(r, e.Rng("ops"), cfg.Mix)
+	if cfg.Variant == 8 {
+		g.M.Reopen = 50 // the targeted reopen comes early
+	}
 	burstSpan := 0
 	runHistory(e, r, g, explicit, cfg.NTx, "C08", func(op Op) {
 		switch op.K {
